@@ -76,7 +76,7 @@ func build(n int, edges [][2]int, dialect string) *world {
 	}
 	for _, e := range edges {
 		c, p := w.tables[e[0]], w.tables[e[1]]
-		col := &schema.Column{Name: p.Name + "_id", Type: intT, }
+		col := &schema.Column{Name: p.Name + "_id", Type: intT}
 		c.AddColumns(col)
 		fk := schema.NewForeignKey(fmt.Sprintf("fk_%s_%s", c.Name, p.Name)).SetTable(c).AddColumns(col).SetRefTable(p).AddRefColumns(p.Columns[0])
 		w.fk[e] = fk
@@ -93,8 +93,14 @@ func (w *world) tableWith(i int, fks []*schema.ForeignKey) *schema.Table {
 
 type plan struct {
 	changes []schema.Change
-	start   struct{ tables []string; fks [][3]string }
-	want    struct{ tables []string; fks [][3]string }
+	start   struct {
+		tables []string
+		fks    [][3]string
+	}
+	want struct {
+		tables []string
+		fks    [][3]string
+	}
 }
 
 // scenarioChanges derives the change set, the start and the wanted catalogue from (graph, roles).
@@ -173,21 +179,21 @@ func scenarioChanges(w *world, n int, edges [][2]int, roles string) *plan {
 }
 
 var (
-	reIdent    = `(?:` + "`[^`]+`" + `|"[^"]+")`
-	reQualified = regexp.MustCompile(`(` + reIdent + `)\.(` + reIdent + `)`)
-	reCreate   = regexp.MustCompile(`^CREATE TABLE (?:IF NOT EXISTS )?((?:` + reIdent + `\.)?` + reIdent + `)`)
-	reInline   = regexp.MustCompile(`CONSTRAINT (` + reIdent + `) FOREIGN KEY \([^)]*\) REFERENCES ((?:` + reIdent + `\.)?` + reIdent + `)`)
-	reAlter    = regexp.MustCompile(`^ALTER TABLE ((?:` + reIdent + `\.)?` + reIdent + `) (.*)$`)
-	reAddFK    = regexp.MustCompile(`ADD CONSTRAINT (` + reIdent + `) FOREIGN KEY \([^)]*\) REFERENCES ((?:` + reIdent + `\.)?` + reIdent + `)`)
-	reDropFK   = regexp.MustCompile(`DROP (?:FOREIGN KEY|CONSTRAINT) (` + reIdent + `)`)
-	reAddChk   = regexp.MustCompile(`ADD (?:CONSTRAINT (` + reIdent + `) )?CHECK \(`)
-	reDropChk  = regexp.MustCompile(`DROP (?:CONSTRAINT|CHECK) (` + "[`\"]ck_[a-z0-9_]+[`\"]" + `)`)
-	reDropT    = regexp.MustCompile(`^DROP TABLE (?:IF EXISTS )?((?:` + reIdent + `\.)?` + reIdent + `)`)
+	reIdent      = `(?:` + "`[^`]+`" + `|"[^"]+")`
+	reQualified  = regexp.MustCompile(`(` + reIdent + `)\.(` + reIdent + `)`)
+	reCreate     = regexp.MustCompile(`^CREATE TABLE (?:IF NOT EXISTS )?((?:` + reIdent + `\.)?` + reIdent + `)`)
+	reInline     = regexp.MustCompile(`CONSTRAINT (` + reIdent + `) FOREIGN KEY \([^)]*\) REFERENCES ((?:` + reIdent + `\.)?` + reIdent + `)`)
+	reAlter      = regexp.MustCompile(`^ALTER TABLE ((?:` + reIdent + `\.)?` + reIdent + `) (.*)$`)
+	reAddFK      = regexp.MustCompile(`ADD CONSTRAINT (` + reIdent + `) FOREIGN KEY \([^)]*\) REFERENCES ((?:` + reIdent + `\.)?` + reIdent + `)`)
+	reDropFK     = regexp.MustCompile(`DROP (?:FOREIGN KEY|CONSTRAINT) (` + reIdent + `)`)
+	reAddChk     = regexp.MustCompile(`ADD (?:CONSTRAINT (` + reIdent + `) )?CHECK \(`)
+	reDropChk    = regexp.MustCompile(`DROP (?:CONSTRAINT|CHECK) (` + "[`\"]ck_[a-z0-9_]+[`\"]" + `)`)
+	reDropT      = regexp.MustCompile(`^DROP TABLE (?:IF EXISTS )?((?:` + reIdent + `\.)?` + reIdent + `)`)
 	reCommentCol = regexp.MustCompile(`COMMENT ON COLUMN (` + reIdent + `(?:\.` + reIdent + `){1,2})`)
 	reIdentOnly  = regexp.MustCompile(reIdent)
-	reSchemaSt = regexp.MustCompile(`^(CREATE|DROP|ALTER) (SCHEMA|DATABASE)\b`)
+	reSchemaSt   = regexp.MustCompile(`^(CREATE|DROP|ALTER) (SCHEMA|DATABASE)\b`)
 	// positions where a table / type / (PostgreSQL) index is referenced and may carry a schema qualifier
-	reRefPos   = regexp.MustCompile(`(?:\bTABLE|\bREFERENCES|\bTYPE|\bON|DROP INDEX(?: CONCURRENTLY)?|ALTER INDEX) (?:IF (?:NOT )?EXISTS )?((?:` + reIdent + `\.)?` + reIdent + `)`)
+	reRefPos = regexp.MustCompile(`(?:\bTABLE|\bREFERENCES|\bTYPE|\bON|DROP INDEX(?: CONCURRENTLY)?|ALTER INDEX) (?:IF (?:NOT )?EXISTS )?((?:` + reIdent + `\.)?` + reIdent + `)`)
 )
 
 func unq(s string) string { return strings.Trim(s, "`\"") }
@@ -407,6 +413,31 @@ func runScenario(dialect string, n int, edges [][2]int, roles, req string, updow
 	}
 	emit(ev{"ev": "end", "c": sc.ID, "mustreject": false, "checksmatter": false, "wantchecks": [][2]string{}})
 	sc.Last = line
+	if !updown && req == "realm" {
+		// the same change objects planned once more (the CLI plans for the summary and again when applying): planning must not have
+		// altered its input, the second plan has to satisfy the catalogue as well
+		sc2 := &scenario{ID: len(cases) + 1, Dialect: dialect, N: n, Graph: edges, Roles: roles, Req: req, Dir: "replan"}
+		cases = append(cases, sc2)
+		sc2.First = line + 1
+		emit(ev{"ev": "reset", "c": sc2.ID, "req": req, "schema": marker,
+			"start": map[string]any{"tables": p.start.tables, "fks": p.start.fks},
+			"want":  map[string]any{"tables": want.tables, "fks": want.fks}})
+		pl2, err := planner(dialect).PlanChanges(context.Background(), "plan", p.changes, opts...)
+		if err != nil {
+			sc2.Err = err.Error()
+			emit(ev{"ev": "reject", "c": sc2.ID, "owed": false, "err": sc2.Err})
+			sc2.Last = line
+			return
+		}
+		for _, c := range pl2.Changes {
+			sc2.Stmts = append(sc2.Stmts, c.Cmd)
+			for _, e := range events(sc2.ID, c.Cmd) {
+				emit(e)
+			}
+		}
+		emit(ev{"ev": "end", "c": sc2.ID, "mustreject": false, "checksmatter": false, "wantchecks": [][2]string{}})
+		sc2.Last = line
+	}
 }
 
 func main() {
